@@ -62,7 +62,17 @@ func init() {
 	register(&Rule{
 		Name:  "LOCK-TYPESTATE",
 		IR:    "cfg",
-		Props: []string{"C40"},
+		Props: []string{"C40", "C23"},
+		// A lock operation that is illegal in its state (RUnlock of an unlocked RWMutex) is a fatal
+		// runtime error that ends the server: the #balance obligations also serve C23.
+		Narrow: func(o *Obligation) {
+			if strings.HasSuffix(o.Key, "#balance") {
+				o.Props = []string{"C40", "C23"}
+			} else {
+				o.Props = []string{"C40"}
+			}
+		},
+		FloorBy: map[string]int{"C23": 6},
 		// grpc service.Evaluate (apply, balance); api EvaluateExpression (apply, balance), EvaluateString (call),
 		// EvaluateProto (call); ui EvaluateHandler.ServeHTTP (2 calls), OpenSourceUI.ServeStack (call, balance),
 		// OpenSourceUI.ServeStartup (balance), CompareHandler.ServeHTTP (call, balance), lockedHandler.ServeHTTP
